@@ -405,7 +405,6 @@ Scalar MASA::sod_1d<Scalar>::rtbis(Scalar x1,Scalar x2,Scalar xacc,int JMAX)
   int j;
   Scalar dx,f,fmid,xmid;
   Scalar myval;
-  Scalar thresh = 5 * numeric_limits<Scalar>::epsilon();
 
   fmid=func(x2);
   f=func(x1);
@@ -433,7 +432,7 @@ Scalar MASA::sod_1d<Scalar>::rtbis(Scalar x1,Scalar x2,Scalar xacc,int JMAX)
       xmid=myval+dx;
       fmid=func(xmid);
       if(fmid <= 0.) myval=xmid;
-      if(abs(dx) < xacc || fmid < thresh) 
+      if(abs(dx) < xacc || fmid == 0.) 
 	return(myval);
     }
   
